@@ -1,3 +1,8 @@
 import builtins as _b
 _b.__dict__.setdefault('_ol_import_log', []).append(__name__)
 top_attr = 'top'
+ZERO = 0
+FLAG = False
+EMPTY = ''
+NOTHING = None
+NOLIST = []
